@@ -229,7 +229,6 @@ impl Game {
                     if board.castle_rights(Color::White) != white_castle_rights
                         || board.castle_rights(Color::Black) != black_castle_rights
                     {
-                        reversible_moves = 0;
                         legal_moves_per_turn.clear();
                     }
                     legal_moves_per_turn
